@@ -38,6 +38,10 @@ def main():
         if a == "--also":
             also = sys.argv[i + 1].split(",")
             args = [x for x in args if x != sys.argv[i + 1]]
+    global SEEDED
+    if "--harmless" in sys.argv:
+        # behaviour-preserving rewrites: the checks must stay silent
+        SEEDED = os.path.join(ROOT, "harmless")
     names = args or sorted(d for d in os.listdir(SEEDED) if os.path.isfile(os.path.join(SEEDED, d, "patch.diff")))
     if not clean():
         print("refusing: /repo has local changes")
@@ -65,6 +69,8 @@ def main():
                 rc, out = sh([os.path.join(ROOT, "check"), p, tier], cwd=ROOT)
                 m = re.search(r"^VIOLATION property=(\S+) replay=(\S+)(.*)$", out, re.M)
                 verdict = "caught" if (rc == 1 and m) else ("no-verdict" if rc not in (0, 1) else "missed")
+                if "--harmless" in sys.argv:
+                    verdict = {"caught": "ALARM", "missed": "silent"}.get(verdict, verdict)
                 entry["checks"][p] = dict(verdict=verdict, rc=rc, seconds=round(time.time() - t0, 1),
                                           line=(m.group(0) if m else out.strip().splitlines()[-1][:300] if out.strip() else ""))
                 if m and os.path.exists(m.group(2)):
@@ -82,7 +88,7 @@ def main():
             sh(["git", "-C", REPO, "clean", "-fdq"])
             for ep, txt in saved.items():  # evidence describes the unchanged tree, not the drill
                 open(ep, "w").write(txt)
-        entry["caught_by"] = [p for p, c in entry["checks"].items() if c["verdict"] == "caught"]
+        entry["caught_by"] = [p for p, c in entry["checks"].items() if c["verdict"] in ("caught", "ALARM")]
         results[name] = entry
         json.dump(results, open(resp, "w"), indent=1, sort_keys=True)
     if not clean():
